@@ -8,6 +8,8 @@ mod c03;
 mod c04;
 mod c05;
 mod c06;
+mod c08;
+mod c09;
 mod c10;
 mod c11;
 mod c12;
@@ -16,6 +18,8 @@ mod c14;
 mod c15;
 mod c16;
 mod c17;
+mod c18;
+mod c19;
 mod c20;
 mod net;
 
@@ -33,6 +37,11 @@ fn main() {
         ("c04", "drive") => c04::drive(&kv),
         ("c05", "drive") => c05::drive(&kv),
         ("c06", "drive") => c06::drive(&kv),
+        ("c08", "drive") => c08::drive(&kv),
+        ("c09", "drive") => c09::drive(&kv),
+        ("c18", "drive") => c18::drive(&kv),
+        ("c19", "drive") => c19::drive(&kv),
+        ("c19", "show") => c19::show(&kv),
         ("c10", "drive") => c10::drive(&kv),
         ("c11", "drive") => c11::drive(&kv),
         ("c12", "drive") => c12::drive(&kv),
